@@ -329,6 +329,19 @@ def lost_after_expired_first_record(ref_files, exp_census, cen, now):
     return extra
 
 
+def dir_diff(got, want):
+    """first differing files of two `name=hex` listings"""
+    a, b = dict(x.split("=", 1) for x in got.split(" ") if "=" in x), dict(x.split("=", 1) for x in want.split(" ") if "=" in x)
+    res = []
+    for f in sorted(set(a) | set(b)):
+        if a.get(f) != b.get(f):
+            x, y = a.get(f, "<absent>"), b.get(f, "<absent>")
+            i = next((i for i in range(min(len(x), len(y))) if x[i] != y[i]), min(len(x), len(y)))
+            res.append({"file": f, "impl_len": len(x) // 2, "model_len": len(y) // 2, "first_diff_at_byte": i // 2,
+                        "impl": x[max(0, i - 16):i + 128], "model": y[max(0, i - 16):i + 128]})
+    return res[:3]
+
+
 def tmp_records(tmp):
     body = tmp[12:]
     return [body[i:i + 64] for i in range(0, len(body) - 63, 64)]
@@ -409,6 +422,12 @@ def run(ctx):
 
     def classify(pt, files, okk, cen, exp_census, ref_files):
         """signature of a snapshot that does not recover to the reference"""
+        if pt in (201, 202) and "rewrite.aof.tmp" in files and "rewrite.aof" not in files:
+            return ("crash-after-inputs-removed-before-rename",
+                    "compaction removes its input files before renaming rewrite.aof.tmp into place: a crash in between loses every compacted hold (restart recovers %d of %d holds)" % (len(cen), len(exp_census)))
+        if pt == 203 and not okk and "rewrite.aof.tmp.dat" in files and "rewrite.aof" in files and "rewrite.aof.tmp" not in files:
+            return ("crash-between-the-two-renames",
+                    "rewrite.aof and rewrite.aof.dat are renamed separately: a crash in between leaves records whose values are missing (%s)" % ("start fails" if not okk else "restart recovers %d of %d holds" % (len(cen), len(exp_census))))
         if okk:
             ks = value_of_released_holder(ref_files, exp_census, cen)
             if ks:
@@ -432,12 +451,6 @@ def run(ctx):
                         "the un-compacted log brings back a hold that was released: the hold's term was shortened by an update, its UNLOCK record carries the short term and "
                         "is skipped by the loader's expiry filter once that term is over, the older LOCK record with the long term is loaded; the compaction (correctly) drops "
                         "all of them, so a restart recovers %d holds from the compacted directory and %d from the files it replaced (%s)" % (len(cen), len(exp_census), gh[0][0]))
-        if pt in (201, 202) and "rewrite.aof.tmp" in files and "rewrite.aof" not in files:
-            return ("crash-after-inputs-removed-before-rename",
-                    "compaction removes its input files before renaming rewrite.aof.tmp into place: a crash in between loses every compacted hold (restart recovers %d of %d holds)" % (len(cen), len(exp_census)))
-        if pt == 203 and "rewrite.aof.tmp.dat" in files and "rewrite.aof" in files and "rewrite.aof.tmp" not in files:
-            return ("crash-between-the-two-renames",
-                    "rewrite.aof and rewrite.aof.dat are renamed separately: a crash in between leaves records whose values are missing (%s)" % ("start fails" if not okk else "restart recovers %d of %d holds" % (len(cen), len(exp_census))))
         if "rewrite.aof.tmp" in ref_files and pt in (203, 204, 299):
             return ("stale-rewrite-tmp-is-appended-to",
                     "a rewrite.aof.tmp left behind by an interrupted compaction is not removed at start-up (clearAofFiles is never called): the next compaction "
@@ -482,7 +495,10 @@ def run(ctx):
         """pre: files before; snaps: [(point, files)] in order; compares with the model and runs the monitor"""
         stats["compactions"] += 1
         tmp200 = [f for (pt, f) in snaps if pt == 200]
-        live = tmp_records(tmp200[0].get("rewrite.aof.tmp", b"")) if tmp200 else []
+        # HasLock decisions of THIS compaction: what it appended to rewrite.aof.tmp (a stale tmp file left by an interrupted
+        # compaction is appended to, its records are not decisions of this run)
+        nstale = len(tmp_records(pre.get("rewrite.aof.tmp", b"")))
+        live = tmp_records(tmp200[0].get("rewrite.aof.tmp", b""))[nstale:] if tmp200 else []
         states = model_states(pre, rotate, cur, live)
         nstates = max(states) if states else 0
         k = 0
@@ -508,7 +524,7 @@ def run(ctx):
             if got != want:
                 stats["dir_mismatch"] += 1
                 if len(mism) < 4:
-                    mism.append({"scenario": name, "point": pt, "k": kk, "impl": got[:600], "model": want[:600]})
+                    mism.append({"scenario": name, "point": pt, "k": kk, "diff": dir_diff(got, want)})
             monitor(name, pt, kk, files, exp_ok, exp_census,
                     {"pre_image": {f: c8.hx(b) for f, b in pre.items()}, "ops": ops or []}, pre)
 
@@ -655,7 +671,7 @@ def run(ctx):
                 continue
             if pt == 200 and pre211:
                 files = read_dir(os.path.join(d, "snap", "%s-%s" % (t[1], t[2])))
-                live = tmp_records(files.get("rewrite.aof.tmp", b""))
+                live = tmp_records(files.get("rewrite.aof.tmp", b""))[len(tmp_records(pre211[0].get("rewrite.aof.tmp", b""))):]
                 grp = {"cur": pre211[1], "states": model_states(pre211[0], False, pre211[1], live), "k": 2}
                 stats["compactions"] += 1
             elif pt in (201, 202, 203, 204) and grp:
@@ -671,7 +687,7 @@ def run(ctx):
             if got != want:
                 stats["dir_mismatch"] += 1
                 if len(mism) < 4:
-                    mism.append({"scenario": name, "point": pt, "k": grp["k"], "impl": got[:600], "model": want[:600], "busy": True, "script": script})
+                    mism.append({"scenario": name, "point": pt, "k": grp["k"], "diff": dir_diff(got, want), "busy": True, "script": script})
             if pt == 299:
                 grp = None
         for l in script:
